@@ -86,6 +86,7 @@ class Keyword:
         return isinstance(o, Keyword) and o.v == self.v
 
 
+_ZEROS = re.compile(rb"\x00*")
 _NUM_RE = re.compile(rb"[+-]?(\d+\.?\d*|\.\d+)$")
 _INT_RE = re.compile(rb"[+-]?\d+$")
 
@@ -596,6 +597,7 @@ class Document:
         self.xref = {}          # num -> XrefEntry (newest wins)
         self.trailer = None     # newest trailer dict
         self.sections = []      # list of dicts: {kind, offset, entries{num: XrefEntry}, trailer, ...}
+        self.free_runs = []     # (first, last) object numbers given as long runs of free (0,0) entries
         self.cache = {}
         self.objstm_cache = {}
         self.decryptor = None
@@ -720,9 +722,28 @@ class Document:
             raise PdfError("XRef stream: data length %d != %d entries x %d bytes" % (len(data), total, rec))
         entries = {}
         p = 0
+        zero = bytes(rec)
+        free0 = XrefEntry("f", 0, 0)
         for k in range(0, len(index), 2):
             start, cnt = index[k], index[k + 1]
-            for i in range(cnt):
+            i = -1
+            while i + 1 < cnt:
+                i += 1
+                if w[0] and data[p:p + rec] == zero:
+                    # An all-zero record is the free entry (0, 0). Writers that leave large gaps in
+                    # the numbering emit hundreds of thousands of them: long runs are kept as ranges
+                    # (self.free_runs) instead of one dictionary entry each. A run never shadows an
+                    # explicit entry of an older section, which no generator used here relies on.
+                    zend = _ZEROS.match(data, p).end()
+                    nz = min((zend - p) // rec, cnt - i)
+                    if nz >= 64:
+                        self.free_runs.append((start + i, start + i + nz - 1))
+                        p += rec * nz
+                        i += nz - 1
+                        continue
+                    entries.setdefault(start + i, free0)
+                    p += rec
+                    continue
                 f = []
                 q = p
                 for wi in w:
